@@ -11,9 +11,23 @@ import (
 )
 
 type agentExec struct {
-	a    *stun.Agent
-	gen  int
-	evs  []string
+	a     *stun.Agent
+	gen   int
+	evs   []string
+	procN int
+}
+
+// the message handed to Agent.Process: only its transaction id may matter, so everything else varies from call to
+// call (all four classes incl. indications, many methods, with and without attributes / raw bytes)
+func procMessage(id [stun.TransactionIDSize]byte, n int) *stun.Message {
+	m := &stun.Message{TransactionID: id}
+	m.Type = stun.MessageType{Method: stun.Method((n * 37) % 4096), Class: stun.MessageClass(n % 4)}
+	if n%3 == 1 {
+		m.Length = uint32(8 * (n % 5))
+		m.Raw = make([]byte, 20+int(m.Length))
+		m.Attributes = stun.Attributes{{Type: stun.AttrSoftware, Length: 4, Value: []byte("abcd")}}
+	}
+	return m
 }
 
 func (x *agentExec) handler(gen int) stun.Handler {
@@ -80,7 +94,8 @@ func (e *executor) agentOp(t []string) (string, bool) {
 	case t[1] == "stop" && len(t) == 3:
 		return x.result(x.a.Stop(tid(t[2]))), true
 	case t[1] == "process" && len(t) == 3:
-		return x.result(x.a.Process(&stun.Message{TransactionID: tid(t[2])})), true
+		x.procN++
+		return x.result(x.a.Process(procMessage(tid(t[2]), x.procN))), true
 	case t[1] == "collect" && len(t) == 3:
 		return x.result(x.a.Collect(time.Unix(0, int64(atoi(t[2]))))), true
 	case t[1] == "sethandler" && len(t) == 2:
